@@ -266,6 +266,24 @@ def request (s : State) (noCache : Bool) : State :=
         else if ent.reqColl && !r.1.cf then startFetch r.1 c cl0              -- prohibited CF MISS
         else setC r.1 c { cl0 with entry := e, isHit := true, didCollapse := ent.reqColl, attached := true }
 
+/-- `findPreviouslyCachedEntry` (a Store lookup with its side effect), then `httpMaybeRemovePublic` for the private entry `e` -/
+def removeOldPublic (s : State) (e : Nat) (priv removes : Bool) : State :=
+  let r := find s
+  if priv && removes then
+    match r.2 with
+    | some p => if p = e then r.1 else release r.1 p true
+    | none => r.1
+  else r.1
+
+/-- the `ReuseDecision` switch of `haveParsedReplyHeaders` -/
+def applyReuse (s : State) (e : Nat) (dec : Reuse) : State :=
+  match dec with
+  | .reuseNot => releaseRequest s e false
+  | .doNotCacheButShare => releaseRequest s e true
+  | _ =>
+    let r := makePublic s e
+    if r.2 then r.1 else releaseRequest r.1 e true
+
 /-- `Client::setFinalReply`: `haveParsedReplyHeaders` then `startWriting` -/
 def replyHeaders (O : Nat → Resp) (s : State) (e : Nat) : State :=
   match s.entries e with
@@ -274,23 +292,12 @@ def replyHeaders (O : Nat → Resp) (s : State) (e : Nat) : State :=
     if !(ent.fwd && ent.pending && ent.hdr.isNone) then s
     else
       let h := (O e).hdr
-      -- findPreviouslyCachedEntry (a Store lookup with its side effect), then httpMaybeRemovePublic
-      let r := find s
-      let s1 := if ent.keyPrivate && h.removes then
-                  match r.2 with
-                  | some p => if p = e then r.1 else release r.1 p true
-                  | none => r.1
-                else r.1
+      let s1 := removeOldPublic s e ent.keyPrivate h.removes
       match s1.entries e with
       | none => s1
       | some ent1 =>
-        let dec := if ent1.relReq then Reuse.doNotCacheButShare else h.reuse
-        let s2 := match dec with
-          | .reuseNot => releaseRequest s1 e false
-          | .doNotCacheButShare => releaseRequest s1 e true
-          | _ =>
-            let r2 := makePublic s1 e
-            if r2.2 then r2.1 else releaseRequest r2.1 e true
+        -- `reusableReply` starts with: RELEASE_REQUEST ⇒ doNotCacheButShare
+        let s2 := applyReuse s1 e (if ent1.relReq then Reuse.doNotCacheButShare else h.reuse)
         match s2.entries e with
         | none => s2
         | some ent2 => setE s2 e { ent2 with hdr := some h, reqColl := false, relAtHdr := ent1.relReq }
@@ -308,6 +315,13 @@ def replyData (O : Nat → Resp) (s : State) (e k : Nat) : State :=
         let room := match h.clen with | some n => min k (n - ent.body.length) | none => k
         setE s e { ent with body := ent.body ++ ((O e).sent.drop ent.body.length).take room }
 
+/-- `FwdState::completed`: was the whole reply stored (`storedWholeReply_`)?  With a Content-Length the count decides
+(`HttpStateData::writeReplyBody`), otherwise the last-chunk / the end of an EOF-delimited body -/
+def endsWhole (O : Nat → Resp) (e : Nat) (ent : Entry) (h : Hdr) : Bool :=
+  match h.clen with
+  | some n => ent.body.length == n
+  | none => ent.body.length == (O e).sent.length && (O e).properEnd
+
 /-- the server connection ends (or the count is reached): `FwdState::completed` -/
 def replyEnd (O : Nat → Resp) (s : State) (e : Nat) : State :=
   match s.entries e with
@@ -317,16 +331,12 @@ def replyEnd (O : Nat → Resp) (s : State) (e : Nat) : State :=
     | none => s
     | some h =>
       if !(ent.fwd && ent.pending && !ent.isErr) then s
-      else
-        let whole := match h.clen with
-          | some n => ent.body.length == n
-          | none => ent.body.length == (O e).sent.length && (O e).properEnd
-        if whole then setE s e { ent with pending := false, fwd := false }          -- completeSuccessfully
-        else                                                                         -- completeTruncated
-          let s1 := releaseRequest s e false
-          match s1.entries e with
-          | none => s1
-          | some ent1 => setE s1 e { ent1 with badLen := true, pending := false, fwd := false }
+      else if endsWhole O e ent h then setE s e { ent with pending := false, fwd := false }          -- completeSuccessfully
+      else                                                                                            -- completeTruncated
+        let s1 := releaseRequest s e false
+        match s1.entries e with
+        | none => s1
+        | some ent1 => setE s1 e { ent1 with badLen := true, pending := false, fwd := false }
 
 /-- the fetch fails before any reply byte was stored: `errorAppendEntry` → `storeErrorResponse` -/
 def replyError (s : State) (e : Nat) : State :=
@@ -350,18 +360,21 @@ def abort (s : State) (e : Nat) : State :=
       | none => s1
       | some ent1 => setE s1 e { ent1 with aborted := true, pending := false, fwd := false }
 
+/-- `clientReplyContext::checkTransferDone` after `out` body bytes were sent: `storeOKTransferDone` / `storeNotOKTransferDone` -/
+def transferDone (ent : Entry) (h : Hdr) (out : Nat) : Bool :=
+  if !ent.pending then decide (ent.body.length ≤ out)
+  else match h.clen with
+    | some n => decide (n ≤ out)
+    | none => false
+
 /-- `clientReplyContext::replyStatus` after `out` body bytes were sent -/
 def replyStatus (ent : Entry) (h : Hdr) (out : Nat) : Option Verdict :=
   if ent.aborted then some .failed
-  else
-    let done := if !ent.pending then decide (ent.body.length ≤ out)                     -- storeOKTransferDone
-                else match h.clen with | some n => decide (n ≤ out) | none => false      -- storeNotOKTransferDone
-    if done then
-      if ent.badLen then some .unplanned
-      else match h.clen with
-        | some n => if out < n then some .unplanned else some .complete                 -- !gotEnough()
-        | none => some .complete
-    else none
+  else if !transferDone ent h out then none
+  else if ent.badLen then some .unplanned
+  else match h.clen with
+    | some n => if out < n then some .unplanned else some .complete                     -- !gotEnough()
+    | none => some .complete
 
 def finish (s : State) (c : Nat) (cl : Client) (v : Verdict) : State :=
   setC s c { cl with phase := .done, verdict := some v, attached := false }
